@@ -383,6 +383,19 @@ def replay_history(cex):
                 continue
             if err > 1e-5:
                 bad.append({"order": order, "scales": [s1, s2], "max_abs_diff_vs_fresh_simulator": err})
+            # subset() / copy() of a simulator simulate what a fresh simulator with the same parameters and those components does
+            full = build(s1)
+            full.add_molecules(Molecules([[3.0, 4.0, 15.5]]), pipe.from_gaussian((5.0, 5.0, 5.0), sigma=0.9), name="B")
+            only_b = TomogramSimulator(order=order, scale=s1)
+            only_b.add_molecules(Molecules([[3.0, 4.0, 15.5]]), pipe.from_gaussian((5.0, 5.0, 5.0), sigma=0.9), name="B")
+            for dname, d, ref in (("subset('B')", lambda: full.subset("B"), only_b), ("copy()", lambda: full.copy(), full)):
+                try:
+                    dd = d()
+                    err = float(np.abs(np.asarray(dd.simulate(shp1)) - np.asarray(ref.simulate(shp1))).max())
+                    if err > 1e-5 or dd.scale != s1 or dd.order != order:
+                        bad.append({"order": order, "scale": s1, "derived": dname, "max_abs_diff_vs_fresh_simulator": err, "derived_scale": dd.scale})
+                except Exception as e:
+                    bad.append({"order": order, "scale": s1, "derived": dname, "raised": repr(e)[:120]})
     return len(bad) > 0, {"n": len(bad), "examples": bad[:4]}
 
 
@@ -442,7 +455,14 @@ def sec_history(rec, patches=None):
             second = list(used)
             del used[:]
             (sim.simulate_2d((40, 40)) if two_d else sim.simulate((40, 40, 40)))
-            return first, second, list(used)
+            third = list(used)
+            # derived simulators keep scale and order: subset("A"), copy(), and the subset of the replaced one
+            derived = []
+            for name, d, sc_, od_ in (("subset(A)", sim.subset("A"), s1, o1), ("copy()", sim.copy(), s1, o1), ("replace().subset([A])", sim2.subset(["A"]), s2, o2), ("replace().copy()", sim2.copy(), s2, o2)):
+                del used[:]
+                (d.simulate_2d((40, 40)) if two_d else d.simulate((40, 40, 40)))
+                derived.append((name, list(used), sc_, od_, d.scale, d.order, d.corner_safe))
+            return first, second, third, derived
 
         for pi, p in enumerate(explore(run, assumptions=hyps, max_paths=60)):
             if not p.ok:
@@ -450,7 +470,12 @@ def sec_history(rec, patches=None):
                 rec.fact(f"{tag}/path{pi}/runs", False, key="C14/history/raises", detail={"exc": repr(p.exc)[:300], **det}, reproduced=ok)
                 continue
             h = hyps + [p.condition()]
-            for name, calls, sc, od in (("first", p.result[0], s1, o1), ("after-replace", p.result[1], s2, o2), ("original-again", p.result[2], s1, o1)):
+            for dname, dcalls, dsc, dod, dscale, dorder, dcs in p.result[3]:
+                rec.query(f"{tag}/path{pi}/{dname}/keeps-the-scale", h, zr(dscale) == dsc.e, key="C14/history/derived-scale", replay=replay_history, names={"scale", "scale2"})
+                rec.fact(f"{tag}/path{pi}/{dname}/keeps-order-and-corner_safe", dorder == dod and dcs is False, key="C14/history/derived-order", detail={"order": dorder, "corner_safe": dcs},
+                         reproduced=True if (dorder == dod and dcs is False) else replay_history({})[0])
+            for name, calls, sc, od in [("first", p.result[0], s1, o1), ("after-replace", p.result[1], s2, o2), ("original-again", p.result[2], s1, o1)] + [
+                    (d[0], d[1], d[2], d[3]) for d in p.result[3]]:
                 okn = len(calls) == 1
                 rec.fact(f"{tag}/path{pi}/{name}/one-fragment", okn, key="C14/history/fragment-count", detail={"n": len(calls)}, reproduced=True if okn else replay_history({})[0])
                 if not okn:
